@@ -697,7 +697,7 @@ def normalize_flow(
         size = torch.Size(reversed(data.shape[2:]))  # X,...
     zero = torch.tensor(0, dtype=data.dtype, device=data.device)
     size = torch.as_tensor(size, dtype=data.dtype, device=data.device)
-    size_ = size.sub(1) if align_corners else size
+    size_ = size.sub(1).clamp_(min=1) if align_corners else size
     if not channels_last:
         data = move_dim(data, 1, -1)
     if side_length != 1:
